@@ -12,12 +12,12 @@ import (
 // H_C13_empty: prettyDiff(a, b) == "" iff a == b, colours on and off.
 func H_C13_empty() {
 	vxrt.EnvPresent("NO_COLOR")
-	calibratePrettyDiff()
+	vxCalibratePrettyDiff()
 	n := vxrt.Param("n", 3)
 	a := vxrt.Text("a", vxrt.Len("na", vxrt.Param("nalo", 0), vxrt.Param("nahi", n)))
 	b := vxrt.Text("b", vxrt.Len("nb", vxrt.Param("nblo", 0), vxrt.Param("nbhi", n)))
 	if vxrt.Param("ascii", 0) == 1 {
-		vxrt.Assume(vxrt.And(asciiOnly(a), asciiOnly(b)))
+		vxrt.Assume(vxrt.And(vxAsciiOnly(a), vxAsciiOnly(b)))
 	}
 	rep := prettyDiff(a, b, "x.snap", 1)
 	vxrt.Assert(vxrt.Eq(a, b) == (rep == ""), "C13:empty-iff-identical")
@@ -29,7 +29,7 @@ func H_C13_empty() {
 // shown lines from both texts leaves the same lines.
 func H_C13_render() {
 	vxrt.EnvFixed("NO_COLOR", "1")
-	calibratePrettyDiff()
+	vxCalibratePrettyDiff()
 	la := vxrt.Len("la", 0, vxrt.Param("lines", 3))
 	lb := vxrt.Len("lb", 0, vxrt.Param("lines", 3))
 	mk := func(label string, n int) (string, []string) {
@@ -38,7 +38,8 @@ func H_C13_render() {
 		for i := 0; i < n; i++ {
 			c := vxrt.Text(label, 1)
 			// line content: one byte that is neither a newline, ESC, nor one of the report's own markers
-			vxrt.Assume(vxrt.Or(vxrt.And(c[0] >= 'a', c[0] <= 'z'), c[0] == '%'))
+			// (a letter, '%', or a byte that is not valid UTF-8 on its own: Latin-1 text)
+			vxrt.Assume(vxrt.Or(vxrt.Or(vxrt.And(c[0] >= 'a', c[0] <= 'z'), c[0] == '%'), vxrt.Or(c[0] == 0xe9, c[0] == 0x80)))
 			text += c
 			lines = append(lines, c+"\n")
 			if i < n-1 {
@@ -56,15 +57,15 @@ func H_C13_render() {
 	}
 	a, aLines := mk("a", la)
 	b, bLines := mk("b", lb)
-	vxrt.Assume(differs(a, b))
+	vxrt.Assume(vxDiffers(a, b))
 	rep := prettyDiff(a, b, "", 1)
-	checkDiffReport(rep, aLines, bLines)
+	vxCheckDiffReport(rep, aLines, bLines)
 }
 
 // checkDiffReport: the NO_COLOR report of two different texts: no escape sequences, header counts
 // equal the numbers of -/+ lines shown, every - line is a line of the stored text, every + line a
 // line of the received text, and taking the shown lines out of both texts leaves the same lines.
-func checkDiffReport(rep string, aLines, bLines []string) {
+func vxCheckDiffReport(rep string, aLines, bLines []string) {
 	vxrt.Assert(rep != "", "C13:nonempty-for-different")
 	vxrt.Assert(!strings.Contains(rep, "\x1b"), "C13:no-escape-sequences")
 
@@ -89,8 +90,8 @@ func checkDiffReport(rep string, aLines, bLines []string) {
 	}
 	vxrt.Assert(del == len(minus), "C13:deleted-count-matches")
 	vxrt.Assert(ins == len(plus), "C13:inserted-count-matches")
-	restsA := removals(aLines, minus)
-	restsB := removals(bLines, plus)
+	restsA := vxRemovals(aLines, minus)
+	restsB := vxRemovals(bLines, plus)
 	vxrt.Assert(len(restsA) > 0, "C13:minus-lines-are-stored-lines")
 	vxrt.Assert(len(restsB) > 0, "C13:plus-lines-are-received-lines")
 	same := false
@@ -114,14 +115,14 @@ func checkDiffReport(rep string, aLines, bLines []string) {
 // as H_C13_render, in particular the header counts cover every hunk.
 func H_C13_render_long() {
 	vxrt.EnvFixed("NO_COLOR", "1")
-	calibratePrettyDiff()
+	vxCalibratePrettyDiff()
 	n := vxrt.Param("lines", 24)
 	p1 := 2 + vxrt.Choice("first-place", 2)
 	p2 := n - 4 + vxrt.Choice("second-place", 2)
 	k1, k2 := vxrt.Choice("first-kind", 3), vxrt.Choice("second-kind", 3)
 	var aLines, bLines []string
 	for i := 0; i < n; i++ {
-		l := "line " + itoa(i) + "\n"
+		l := "line " + vxItoa(i) + "\n"
 		kind := -1
 		if i == p1 {
 			kind = k1
@@ -131,12 +132,12 @@ func H_C13_render_long() {
 		switch kind {
 		case 0: // changed
 			aLines = append(aLines, l)
-			bLines = append(bLines, "changed "+itoa(i)+"\n")
+			bLines = append(bLines, "changed "+vxItoa(i)+"\n")
 		case 1: // removed
 			aLines = append(aLines, l)
 		case 2: // added
 			aLines = append(aLines, l)
-			bLines = append(bLines, l, "added "+itoa(i)+"\n")
+			bLines = append(bLines, l, "added "+vxItoa(i)+"\n")
 		default:
 			aLines = append(aLines, l)
 			bLines = append(bLines, l)
@@ -145,12 +146,12 @@ func H_C13_render_long() {
 	a, b := strings.Join(aLines, ""), strings.Join(bLines, "")
 	rep := prettyDiff(a, b, "", 1)
 	// the texts end in a newline: the split keeps a final empty element, shown as a bare line
-	checkDiffReport(rep, append(aLines, "\n"), append(bLines, "\n"))
+	vxCheckDiffReport(rep, append(aLines, "\n"), append(bLines, "\n"))
 }
 
 // removals returns every sequence that can be obtained from `from` by taking
 // out the lines of `shown`, in order (each as a distinct position).
-func removals(from, shown []string) [][]string {
+func vxRemovals(from, shown []string) [][]string {
 	if len(shown) == 0 {
 		return [][]string{append([]string(nil), from...)}
 	}
@@ -159,7 +160,7 @@ func removals(from, shown []string) [][]string {
 		if from[i] != shown[0] {
 			continue
 		}
-		for _, rest := range removals(from[i+1:], shown[1:]) {
+		for _, rest := range vxRemovals(from[i+1:], shown[1:]) {
 			seq := append(append([]string(nil), from[:i]...), rest...)
 			out = append(out, seq)
 		}
@@ -173,7 +174,7 @@ func removals(from, shown []string) [][]string {
 // differ in exactly such a pair is not empty and shows both lines.
 func H_C13_collisions() {
 	vxrt.EnvPresent("NO_COLOR")
-	calibratePrettyDiff()
+	vxCalibratePrettyDiff()
 	pairs := [][2]string{{"costarring", "liquid"}, {"declinate", "macallums"}, {"altarage", "zinke"}, {"creamwove", "quists"}, {"plumless", "buckeroo"}, {"Aa", "BB"}, {"hetairas", "mentioner"}, {"heliotropes", "neurospora"}}
 	p := pairs[vxrt.Choice("pair", len(pairs))]
 	x, y := p[0], p[1]
